@@ -28,6 +28,8 @@ def message_vec(S, prog, target):
 
 def run(rep):
     prog = rep.prog
+    from .c19 import independent_generators
+    independent_generators(rep)
     rep.rule("commit-exact", "Commitment::new(msg, params, bf) == bf*h + <gs, msg> as a normal-form identity (symbolic G, N)")
     rep.rule("open-exact", "verify_opening returns exactly the single atom R_commit(params; msg, bf) == self")
     rep.rule("params-wiring", "from_generators / to_pedersen_parameters / accessors store and return the documented generators")
